@@ -52,6 +52,9 @@ static CONFIGS: &[(&str, [Runner; 5])] = cfgs![
 
 fn main() {
     let a = Args::parse();
+    if a.flag("noop") {
+        return;
+    }
     install_hooks();
     let prop = a.str("prop", "C01");
     let seed = a.u64("seed", 1);
